@@ -9,6 +9,11 @@ _FALSE = object()
 
 
 def replace_bool(value: Any) -> Any:
+    """Alias booleans, at any depth, so that they never compare equal to 0/1."""
+    if isinstance(value, list):
+        return [replace_bool(item) for item in value]
+    if isinstance(value, dict):
+        return {key: replace_bool(item) for key, item in value.items()}
     return _TRUE if value is True else _FALSE if value is False else value
 
 
